@@ -575,9 +575,48 @@ Proof.
   destruct (RdTextM.svcb_ctor_ok pl); [exact H4|exact Logic.I].
 Qed.
 
+(* LOC.from_text: a coordinate = an integer and up to three strings, the last one the hemisphere *)
+Lemma le_loc_coord st hpos hneg : Le st (RdTextM.loc_coord st hpos hneg).
+Proof.
+  unfold RdTextM.loc_coord.
+  eapply le_bind'; [apply le_get_int|lia|]. intros d s1 H1. cbn [fst snd].
+  eapply le_bind'; [apply le_get_string|exact H1|]. intros v1 s2 H2. cbn [fst snd].
+  match goal with |- Le st (bind ?X _) =>
+    assert (HX : match X with Ok (_, _, _, th) => (mz (snd th) <= mz st)%nat | _ => True end) end.
+  { destruct (RdTextM.isdecimal_str v1); [|cbn; exact H2]. cbv zeta.
+    destruct (T.get_string s2 0) as [[v2 s3]|e|e] eqn:G2; cbn [bind fst snd]; try exact Logic.I.
+    pose proof (le_of _ _ _ _ (le_get_string s2 0) G2) as H3.
+    destruct (existsb (Z.eqb 46) v2).
+    - destruct (RdTextM.split_on 46 v2 []) as [|sec [|ms [|? ?]]]; try exact Logic.I.
+      destruct (negb (RdTextM.isdecimal_str sec)); [exact Logic.I|]. cbv zeta.
+      destruct (_ || _); [exact Logic.I|].
+      destruct (T.get_string s3 0) as [[v3 s4]|e|e] eqn:G3; cbn [bind fst snd]; try exact Logic.I.
+      pose proof (le_of _ _ _ _ (le_get_string s3 0) G3). lia.
+    - destruct (RdTextM.isdecimal_str v2).
+      + destruct (T.get_string s3 0) as [[v3 s4]|e|e] eqn:G3; cbn [bind fst snd]; try exact Logic.I.
+        pose proof (le_of _ _ _ _ (le_get_string s3 0) G3). lia.
+      + cbn. lia. }
+  match goal with |- Le st (bind ?X _) => destruct X as [[[[mi se] ml] th]|e|e] end; cbn [bind]; try exact Logic.I.
+  repeat match goal with |- Le st (if ?b then _ else _) => destruct b end; cbn [Le snd]; auto.
+Qed.
+
+Lemma le_loc_from_text st : Le st (RdTextM.loc_from_text st).
+Proof.
+  unfold RdTextM.loc_from_text.
+  eapply le_bind'; [apply le_loc_coord|lia|]. intros la s1 H1. cbn [fst snd].
+  eapply le_bind'; [apply le_loc_coord|exact H1|]. intros lo s2 H2. cbn [fst snd].
+  eapply le_bind'; [apply le_get_string|exact H2|]. intros ta s3 H3. cbn [fst snd].
+  apply le_pure; intros ax. apply le_pure; intros alt.
+  eapply le_bind'; [apply le_get_remaining|exact H3|]. intros ts s4 H4. cbn [fst snd].
+  apply le_pure; intros vals. cbv zeta.
+  apply le_pure; intros u1. apply le_pure; intros u2. apply le_pure; intros u3.
+  repeat match goal with |- Le st (if ?b then _ else _) => destruct b end; cbn [Le]; auto.
+Qed.
+
 Lemma le_parse_field c f st : Le st (RdTextM.parse_field c f st).
 Proof.
-  destruct f; cbn [RdTextM.parse_field]; try apply le_rest_bytes; try (solve [repeat le_step]).
+  destruct f; cbn [RdTextM.parse_field]; try apply le_rest_bytes; try apply le_loc_from_text;
+    try (solve [repeat le_step]).
   (* the whole-record readers *)
   all: try (eapply le_bind'; [apply le_svcb_from_text|lia|]; intros [[p n] ps] s1 H; cbn [Le]; exact H).
 Qed.
